@@ -52,24 +52,47 @@ func ruleFilterOps(r *Report) {
 		var ops []string
 		okArgs := true
 		var closure *ssa.Function
-		for _, c := range callsTo(fn, false, "(*column.Txn).rangeReadPair") {
-			cc, _, _ := callCommon(c)
-			closure = asFunc(cc.Args[2])
-			if closure == nil {
+		for _, c := range callsToDeep(fn, false, "(*column.Txn).rangeReadPair") {
+			cc, _, _ := callCommon(c.Inner)
+			// the per-block step: a literal, a named function or method value, possibly handed down
+			// through a helper's parameter; a choice between two (φ) contributes both
+			fv, _ := normE(cc.Args[2], c.Env, false)
+			var steps []*ssa.Function
+			if phi, isPhi := fv.(*ssa.Phi); isPhi {
+				seenStep := map[*ssa.Function]bool{}
+				for _, e := range phi.Edges {
+					f := asFunc(strip(e))
+					if f == nil {
+						steps = nil
+						break
+					}
+					if !seenStep[f] {
+						seenStep[f] = true
+						steps = append(steps, f)
+					}
+				}
+			} else if f := asFunc(fv); f != nil {
+				steps = []*ssa.Function{f}
+			}
+			if len(steps) == 0 {
 				okArgs = false
 				continue
 			}
+			closure = steps[0]
 			// the column handed over is the one looked up for this name
-			if cl, ok := extractOf(cc.Args[1], 0); !ok || !calleeIs(&cl.Call, "(*column.Txn).columnAt") {
+			colArg, _ := normE(cc.Args[1], c.Env, false)
+			if cl, ok := extractOf(colArg, 0); !ok || !calleeIs(&cl.Call, "(*column.Txn).columnAt") {
 				okArgs = false
 			}
-			for _, o := range callsWhere(closure, func(_ ssa.Instruction, c2 *ssa.CallCommon) bool {
-				return methodOn(c2, "github.com/kelindar/bitmap", "Bitmap", "And", "AndNot", "Or", "Xor", "Clear", "Set", "Remove", "Ones")
-			}) {
-				oc, _, _ := callCommon(o)
-				ops = append(ops, baseName(oc.StaticCallee()))
-				if !sameExpr(bitmapRecv(oc.Args[0]), closure.Params[0]) || len(oc.Args) < 2 || !sameExpr(oc.Args[1], closure.Params[1]) {
-					okArgs = false
+			for _, step := range steps {
+				for _, o := range callsWhere(step, func(_ ssa.Instruction, c2 *ssa.CallCommon) bool {
+					return methodOn(c2, "github.com/kelindar/bitmap", "Bitmap", "And", "AndNot", "Or", "Xor", "Clear", "Set", "Remove", "Ones")
+				}) {
+					oc, _, _ := callCommon(o)
+					ops = append(ops, baseName(oc.StaticCallee()))
+					if !sameExpr(bitmapRecv(oc.Args[0]), cbParam(step, 0)) || len(oc.Args) < 2 || !sameExpr(oc.Args[1], cbParam(step, 1)) {
+						okArgs = false
+					}
 				}
 			}
 		}
@@ -169,21 +192,31 @@ func ruleFilterOps(r *Report) {
 		clears := callsWhereDeep(fn, func(ins ssa.Instruction, _ *ssa.CallCommon) bool { return isClear(ins) })
 		rr := callsToDeep(fn, false, "(*column.Txn).rangeRead")
 		ok := len(clears) >= 1 && len(rr) == 1
-		for _, c := range clears {
-			if ok && canReach(c.Site, rr[0].Site) {
-				ok = false // the scan must not follow the clear
-			}
-		}
 		if ok {
-			// every exit passes the scan or the clear, and the scan only runs for a column that was found
-			every, _ := mustPassToReturn(fn.Blocks[0], 0, func(ins ssa.Instruction) bool { return isClear(ins) || isScan(ins) })
-			found := edgeGuarded(rr[0].Site.Block(), func(c ssa.Value) (bool, bool) {
-				if cl, ok := extractOf(c, 1); ok && calleeIs(&cl.Call, "(*column.Txn).columnAt") {
-					return true, true
+			// on every path (helpers inlined, both values of "column found"): either the selection is
+			// scanned once and not cleared, or it is cleared and not scanned; a column that was not
+			// found is never scanned
+			cfg := pathCfg{names: []string{"found"}, leaf: func(c ssa.Value) (string, bool, bool) {
+				if cl, isX := extractOf(norm(c), 1); isX && calleeIs(&cl.Call, "(*column.Txn).columnAt") {
+					return "found", false, true
 				}
-				return false, false
+				return "", false, false
+			}, classify: func(ins ssa.Instruction) string {
+				switch {
+				case isClear(ins):
+					return "clear"
+				case isScan(ins):
+					return "scan"
+				}
+				return ""
+			}}
+			ok, _ = evalPathsDeep(fn, cfg, func(as map[string]bool, ev []pathEvent, _ *ssa.Return) bool {
+				nc, ns := countEvents(ev, "clear"), countEvents(ev, "scan")
+				if !as["found"] {
+					return nc >= 1 && ns == 0
+				}
+				return (ns == 1 && nc == 0) || (ns == 0 && nc >= 1)
 			})
-			ok = every && found
 		}
 		h.Check(ok, name+"/missing", r.P.Pos(fn.Pos()), "missing or wrong-kind column ⇒ empty selection, no scan", "a missing (or wrong-kind) column does not empty the selection before returning")
 	}
@@ -535,7 +568,7 @@ func ruleCursor(r *Report) {
 			continue
 		}
 		done := false
-		withClosures(fn, func(f *ssa.Function) {
+		for _, f := range deepFuncs(fn) {
 			var st *ssa.Store
 			allInstrs(f, func(ins ssa.Instruction) {
 				if s, ok := ins.(*ssa.Store); ok {
@@ -545,7 +578,7 @@ func ruleCursor(r *Report) {
 				}
 			})
 			if st == nil {
-				return
+				continue
 			}
 			calls := userCallIn(f)
 			ok := len(calls) == 1
@@ -557,13 +590,13 @@ func ruleCursor(r *Report) {
 					if len(c.Call.Args) != 1 || !sameExpr(c.Call.Args[0], st.Val) {
 						ok = false
 					}
-				} else if !sameExpr(st.Val, fn.Params[1]) {
+				} else if !sameExpr(st.Val, fn.Params[1]) && !sameExpr(norm(st.Val), fn.Params[1]) {
 					ok = false
 				}
 			}
 			done = true
 			h.Check(ok, name, r.P.InstrPos(st), "cursor := row ≺ callback(row)", "the cursor is not positioned on the row before the callback runs (accessors inside the callback read or write another row)")
-		})
+		}
 		if !done {
 			h.Bad(name, r.P.Pos(fn.Pos()), "no store to the transaction cursor before the row callback")
 		}
@@ -756,11 +789,25 @@ func ruleSortScan(r *Report) {
 	h.Check(ok, "(*column.Txn).Ascend/scan", r.P.InstrPos(pos), "BTreeG.Scan (ascending, whole tree)", "Ascend does not scan the whole tree in ascending order")
 	guard := false
 	cont := true
-	withClosures(fn, func(f *ssa.Function) {
-		if f == fn {
-			return
+	var scanCb *ssa.Function
+	if len(scans) == 1 {
+		if cc, _, _ := callCommon(scans[0]); len(cc.Args) > 0 {
+			scanCb = asFunc(cc.Args[len(cc.Args)-1])
 		}
+	}
+	var bodies []*ssa.Function
+	if scanCb != nil {
+		bodies = deepFuncs(scanCb)
+	} else {
+		withClosures(fn, func(f *ssa.Function) {
+			if f != fn {
+				bodies = append(bodies, f)
+			}
+		})
+	}
+	for _, f := range bodies {
 		for _, c := range userCallIn(f) {
+			c := c
 			guard = edgeGuarded(c.Block(), func(cond ssa.Value) (bool, bool) {
 				call, isC := cond.(*ssa.Call)
 				if !isC || !methodOn(&call.Call, "github.com/kelindar/bitmap", "Bitmap", "Contains") {
@@ -773,14 +820,16 @@ func ruleSortScan(r *Report) {
 			})
 		}
 		// the iterator never stops early
-		for _, ret := range returnsOf(f) {
-			if len(ret.Results) == 1 {
-				if c, isC := ret.Results[0].(*ssa.Const); !isC || c.Value == nil || c.Value.String() != "true" {
-					cont = false
+		if f == scanCb || scanCb == nil {
+			for _, ret := range returnsOf(f) {
+				if len(ret.Results) == 1 {
+					if c, isC := ret.Results[0].(*ssa.Const); !isC || c.Value == nil || c.Value.String() != "true" {
+						cont = false
+					}
 				}
 			}
 		}
-	})
+	}
 	h.Check(guard && cont, "(*column.Txn).Ascend/selection", r.P.Pos(fn.Pos()), "callback ⇔ offset ∈ selection; scan never stops early", "Ascend does not call back exactly for the tree entries whose offset is in the selection, or stops the scan early")
 }
 
@@ -1087,8 +1136,44 @@ func ruleCountAndCache(r *Report) {
 // MaxUint32, and there is one.
 func enumCacheStartsImpossible(fn *ssa.Function) bool {
 	found, ok := false, true
-	for _, cl := range fn.AnonFuncs {
-		allInstrs(cl, func(ins ssa.Instruction) {
+	// the filter callbacks: function literals of fn and methods handed over as method values, each
+	// with the way its captured state is reached (free variable ↦ binding, receiver ↦ bound value)
+	type cand struct {
+		cl   *ssa.Function
+		cell func(v ssa.Value) ssa.Value // captured variable / receiver ↦ the cell in fn
+	}
+	var cands []cand
+	allInstrs(fn, func(i2 ssa.Instruction) {
+		mc, isMk := i2.(*ssa.MakeClosure)
+		if !isMk {
+			return
+		}
+		cl := mc.Fn.(*ssa.Function)
+		if m := boundTarget(cl); m != nil {
+			m = originOf(m)
+			if len(mc.Bindings) == 1 && len(m.Params) > 0 {
+				recv := m.Params[0]
+				cands = append(cands, cand{m, func(v ssa.Value) ssa.Value {
+					if v == ssa.Value(recv) {
+						return mc.Bindings[0]
+					}
+					return nil
+				}})
+			}
+			return
+		}
+		cands = append(cands, cand{cl, func(v ssa.Value) ssa.Value {
+			for k, f := range cl.FreeVars {
+				if ssa.Value(f) == v && k < len(mc.Bindings) {
+					return mc.Bindings[k]
+				}
+			}
+			return nil
+		}})
+	})
+	for _, cd := range cands {
+		cd := cd
+		allInstrs(cd.cl, func(ins ssa.Instruction) {
 			bo, isB := ins.(*ssa.BinOp)
 			if !isB || (bo.Op != token.EQL && bo.Op != token.NEQ) {
 				return
@@ -1108,30 +1193,14 @@ func enumCacheStartsImpossible(fn *ssa.Function) bool {
 				if !isLd || cld.Op != token.MUL {
 					continue
 				}
-				var fv *ssa.FreeVar
+				var cell ssa.Value
 				field := -1
 				switch a := cld.X.(type) {
 				case *ssa.FreeVar:
-					fv = a
+					cell = cd.cell(a)
 				case *ssa.FieldAddr:
-					if f, isFV := a.X.(*ssa.FreeVar); isFV {
-						fv, field = f, a.Field
-					}
+					cell, field = cd.cell(a.X), a.Field
 				}
-				if fv == nil {
-					continue
-				}
-				// the captured cell in the creating function
-				var cell ssa.Value
-				allInstrs(fn, func(i2 ssa.Instruction) {
-					if mc, isMk := i2.(*ssa.MakeClosure); isMk && mc.Fn == ssa.Value(cl) {
-						for k, f := range cl.FreeVars {
-							if f == fv {
-								cell = mc.Bindings[k]
-							}
-						}
-					}
-				})
 				if cell == nil {
 					continue
 				}
